@@ -1,1356 +1,19 @@
 // C16 correspondence harness: runs the real fcppt.algorithm functions and container/array/tuple helpers on the
 // operation lines described in lean/FcpptModel/Drv/C16.lean and prints the same canonical result lines.
-#include "common/vh.hpp"
-
-#include <fcppt/function_impl.hpp>
-#include <fcppt/int_range_impl.hpp>
-#include <fcppt/loop.hpp>
-#include <fcppt/make_int_range.hpp>
-#include <fcppt/reference_impl.hpp>
-#include <fcppt/tag.hpp>
-#include <fcppt/algorithm/all_of.hpp>
-#include <fcppt/algorithm/binary_search.hpp>
-#include <fcppt/algorithm/contains.hpp>
-#include <fcppt/algorithm/contains_if.hpp>
-#include <fcppt/algorithm/equal.hpp>
-#include <fcppt/algorithm/equal_range.hpp>
-#include <fcppt/algorithm/find_by_opt.hpp>
-#include <fcppt/algorithm/find_if_opt.hpp>
-#include <fcppt/algorithm/find_opt.hpp>
-#include <fcppt/algorithm/fold.hpp>
-#include <fcppt/algorithm/fold_break.hpp>
-#include <fcppt/algorithm/generate_n.hpp>
-#include <fcppt/algorithm/index_of.hpp>
-#include <fcppt/algorithm/join_strings.hpp>
-#include <fcppt/algorithm/loop.hpp>
-#include <fcppt/algorithm/loop_break.hpp>
-#include <fcppt/algorithm/loop_break_mpl.hpp>
-#include <fcppt/algorithm/loop_break_tuple.hpp>
-#include <fcppt/algorithm/map.hpp>
-#include <fcppt/algorithm/map_array.hpp>
-#include <fcppt/algorithm/map_concat.hpp>
-#include <fcppt/algorithm/map_iteration.hpp>
-#include <fcppt/algorithm/map_iteration_second.hpp>
-#include <fcppt/algorithm/map_optional.hpp>
-#include <fcppt/algorithm/map_tuple.hpp>
-#include <fcppt/algorithm/remove.hpp>
-#include <fcppt/algorithm/remove_if.hpp>
-#include <fcppt/algorithm/repeat.hpp>
-#include <fcppt/algorithm/reverse.hpp>
-#include <fcppt/algorithm/sequence_iteration.hpp>
-#include <fcppt/algorithm/split_string.hpp>
-#include <fcppt/algorithm/unique.hpp>
-#include <fcppt/algorithm/unique_if.hpp>
-#include <fcppt/algorithm/update_action.hpp>
-#include <fcppt/array/append.hpp>
-#include <fcppt/array/from_range.hpp>
-#include <fcppt/array/init.hpp>
-#include <fcppt/array/join.hpp>
-#include <fcppt/array/map.hpp>
-#include <fcppt/array/object.hpp>
-#include <fcppt/array/push_back.hpp>
-#include <fcppt/container/at_optional.hpp>
-#include <fcppt/container/contains.hpp>
-#include <fcppt/container/data.hpp>
-#include <fcppt/container/data_end.hpp>
-#include <fcppt/container/dynamic_array.hpp>
-#include <fcppt/container/find_opt.hpp>
-#include <fcppt/container/find_opt_iterator.hpp>
-#include <fcppt/container/insert.hpp>
-#include <fcppt/container/make.hpp>
-#include <fcppt/container/make_move_range.hpp>
-#include <fcppt/container/maybe_back.hpp>
-#include <fcppt/container/maybe_front.hpp>
-#include <fcppt/container/output.hpp>
-#include <fcppt/container/pop_back.hpp>
-#include <fcppt/container/pop_front.hpp>
-#include <fcppt/container/size.hpp>
-#include <fcppt/container/find_opt_mapped.hpp>
-#include <fcppt/container/get_or_insert.hpp>
-#include <fcppt/container/get_or_insert_with_result.hpp>
-#include <fcppt/container/index_map.hpp>
-#include <fcppt/container/join.hpp>
-#include <fcppt/container/key_set.hpp>
-#include <fcppt/container/map_values_copy.hpp>
-#include <fcppt/container/map_values_ref.hpp>
-#include <fcppt/container/set_difference.hpp>
-#include <fcppt/container/set_intersection.hpp>
-#include <fcppt/container/set_union.hpp>
-#include <fcppt/enum/range_impl.hpp>
-#include <fcppt/iterator/make_range.hpp>
-#include <fcppt/iterator/range_impl.hpp>
-#include <fcppt/mpl/list/object.hpp>
-#include <fcppt/optional/object.hpp>
-#include <fcppt/range/begin.hpp>
-#include <fcppt/range/end.hpp>
-#include <fcppt/range/singular.hpp>
-#include <fcppt/tuple/concat.hpp>
-#include <fcppt/tuple/get.hpp>
-#include <fcppt/tuple/map.hpp>
-#include <fcppt/tuple/object.hpp>
-#include <fcppt/tuple/push_back.hpp>
-
-#include <array>
-#include <cstddef>
-#include <deque>
-#include <forward_list>
-#include <iterator>
-#include <list>
-#include <map>
-#include <optional>
-#include <sstream>
-#include <set>
-#include <string>
-#include <type_traits>
-#include <utility>
-#include <vector>
+#include "c16_common.hpp"
 
 namespace
 {
-using seq = std::vector<int>;
-using ulong = unsigned long;
-enum class en3 { v0, v1, v2, fcppt_maximum = v2 };
-
-std::string const bad{"bad-op"};
-#define SZ(n) (std::remove_cvref_t<decltype(n)>::value)
-
-// ---------------------------------------------------------------- parsing and printing
-
-std::optional<seq> parse_seq(std::string const &s)
-{
-  seq r;
-  if (s == "-")
-    return r;
-  for (char c : s)
-  {
-    if (c < '0' || c > '9')
-      return std::nullopt;
-    r.push_back(c - '0');
-  }
-  return r;
-}
-
-bool all_lt3(seq const &v)
-{
-  for (int x : v)
-    if (x >= 3)
-      return false;
-  return true;
-}
-
-inline int val(int x) { return x; }
-inline int val(long x) { return static_cast<int>(x); }
-inline int val(short x) { return static_cast<int>(x); }
-inline int val(en3 x) { return static_cast<int>(x); }
-inline int val(std::pair<int const, int> const &p) { return p.second; }
-template <typename T>
-inline int val(fcppt::tag<T>) { return T::value; }
-
-// probe element: a moved-from object shows the marker 9
-struct pe
-{
-  int v;
-  pe(int const x) : v(x) {} // NOLINT
-  pe(pe const &) = default;
-  pe(pe &&o) noexcept : v(o.v) { o.v = 9; }
-  pe &operator=(pe const &) = default;
-  pe &operator=(pe &&o) noexcept
-  {
-    if (&o != this) { v = o.v; o.v = 9; }
-    return *this;
-  }
-  ~pe() = default;
-  friend bool operator<(pe const &a, pe const &b) { return a.v < b.v; }
-  friend bool operator==(pe const &a, pe const &b) { return a.v == b.v; }
-};
-inline int val(pe const &p) { return p.v; }
-
-// probe target container for algorithm::map: records the calls of reserve()
-struct rc
-{
-  using value_type = int;
-  using size_type = std::size_t;
-  using iterator = std::vector<int>::iterator;
-  using const_iterator = std::vector<int>::const_iterator;
-  std::vector<int> impl{};
-  std::vector<std::size_t> reserved{};
-  void reserve(size_type const n) { reserved.push_back(n); impl.reserve(n); }
-  iterator begin() { return impl.begin(); }
-  iterator end() { return impl.end(); }
-  const_iterator begin() const { return impl.begin(); }
-  const_iterator end() const { return impl.end(); }
-  iterator insert(iterator const pos, int const x) { return impl.insert(pos, x); }
-  std::string cap() const
-  {
-    std::size_t m = 0;
-    for (auto const n : reserved) m = n > m ? n : m;
-    return std::to_string(m) + (reserved.size() > 1 ? "!multi" : "");
-  }
-};
-
-template <typename C>
-std::string ds(C const &c)
-{
-  std::string r;
-  for (auto const &e : c)
-    r += std::to_string(val(e));
-  return r.empty() ? "-" : r;
-}
-
-template <typename C>
-std::string nl(C const &c)
-{
-  std::string r;
-  bool first = true;
-  for (auto const &e : c)
-  {
-    if (!first)
-      r += ',';
-    first = false;
-    r += std::to_string(val(e));
-  }
-  return r.empty() ? "-" : r;
-}
-
-std::optional<ulong> to_nat(std::string const &s)
-{
-  if (s.empty() || s.size() > 9)
-    return std::nullopt;
-  for (char c : s)
-    if (c < '0' || c > '9')
-      return std::nullopt;
-  return std::stoul(s);
-}
-
-inline bool bit(ulong m, int x) { return ((m >> x) & 1UL) != 0; }
-inline ulong pw(ulong b, int e) { ulong r = 1; while (e-- > 0) r *= b; return r; }
-inline int tbl_f(ulong F, int x) { return static_cast<int>((F / pw(3, x)) % 3); }
-inline fcppt::optional::object<int> tbl_g(ulong G, int x)
-{
-  ulong const d = (G / pw(4, x)) % 4;
-  return d == 0 ? fcppt::optional::object<int>{} : fcppt::optional::object<int>{static_cast<int>(d) - 1};
-}
-inline seq tbl_h(ulong H, int x)
-{
-  switch ((H / pw(4, x)) % 4)
-  {
-  case 0: return {};
-  case 1: return {x};
-  case 2: return {x, (x + 1) % 3};
-  default: return {2, x, x};
-  }
-}
-inline bool rel(ulong R, int a, int b) { return bit(R, 3 * a + b); }
-inline char const *b01(bool b) { return b ? "1" : "0"; }
-
-// run `f(std::integral_constant<size_t, n>)` for a run-time n <= Max
-template <std::size_t Max, typename F>
-std::string with_size(std::size_t const n, F const &f)
-{
-  std::string r{bad};
-  [&]<std::size_t... I>(std::index_sequence<I...>)
-  {
-    ((n == I ? (r = f(std::integral_constant<std::size_t, I>{}), 0) : 0), ...);
-  }
-  (std::make_index_sequence<Max + 1>{});
-  return r;
-}
-
-template <std::size_t N>
-fcppt::array::object<int, N> mk_array(seq const &v, std::size_t const off)
-{
-  return fcppt::array::init<fcppt::array::object<int, N>>(
-      [&v, off]<std::size_t I>(std::integral_constant<std::size_t, I>) { return v[off + I]; });
-}
-
-template <std::size_t N> struct tuple_of;
-template <> struct tuple_of<0> { using type = fcppt::tuple::object<>; };
-template <> struct tuple_of<1> { using type = fcppt::tuple::object<int>; };
-template <> struct tuple_of<2> { using type = fcppt::tuple::object<int, long>; };
-template <> struct tuple_of<3> { using type = fcppt::tuple::object<int, long, short>; };
-
-template <std::size_t N>
-typename tuple_of<N>::type mk_tuple(seq const &v, std::size_t const off)
-{
-  if constexpr (N == 0) return fcppt::tuple::object<>{};
-  else if constexpr (N == 1) return fcppt::tuple::object<int>{v[off]};
-  else if constexpr (N == 2) return fcppt::tuple::object<int, long>{v[off], static_cast<long>(v[off + 1])};
-  else return fcppt::tuple::object<int, long, short>{v[off], static_cast<long>(v[off + 1]), static_cast<short>(v[off + 2])};
-}
-
-template <typename... Ts>
-std::string ds_tuple(fcppt::tuple::object<Ts...> const &t)
-{
-  std::string r;
-  [&]<std::size_t... I>(std::index_sequence<I...>)
-  {
-    ((r += std::to_string(val(fcppt::tuple::get<I>(t)))), ...);
-  }
-  (std::make_index_sequence<sizeof...(Ts)>{});
-  return r.empty() ? "-" : r;
-}
-
-template <int... D>
-using ml = fcppt::mpl::list::object<std::integral_constant<int, D>...>;
-
-template <typename F, int... D>
-std::string with_mpl_rec(seq const &v, std::size_t const i, F const &f)
-{
-  if (i == v.size()) return f(ml<D...>{});
-  if constexpr (sizeof...(D) >= 3) return bad;
-  else
-    switch (v[i])
-    {
-    case 0: return with_mpl_rec<F, D..., 0>(v, i + 1, f);
-    case 1: return with_mpl_rec<F, D..., 1>(v, i + 1, f);
-    case 2: return with_mpl_rec<F, D..., 2>(v, i + 1, f);
-    default: return bad;
-    }
-}
-
-template <typename F>
-std::string with_mpl(seq const &v, F const &f)
-{
-  return with_mpl_rec<F>(v, 0, f);
-}
-
-// arrays and tuples of probe elements
-template <std::size_t N>
-fcppt::array::object<pe, N> mk_parray(seq const &v, std::size_t const off)
-{
-  return fcppt::array::init<fcppt::array::object<pe, N>>(
-      [&v, off]<std::size_t I>(std::integral_constant<std::size_t, I>) { return pe{v[off + I]}; });
-}
-
-template <std::size_t N> struct ptuple_of;
-template <> struct ptuple_of<0> { using type = fcppt::tuple::object<>; };
-template <> struct ptuple_of<1> { using type = fcppt::tuple::object<pe>; };
-template <> struct ptuple_of<2> { using type = fcppt::tuple::object<pe, pe>; };
-template <> struct ptuple_of<3> { using type = fcppt::tuple::object<pe, pe, pe>; };
-
-template <std::size_t N>
-typename ptuple_of<N>::type mk_ptuple(seq const &v, std::size_t const off)
-{
-  if constexpr (N == 0) return fcppt::tuple::object<>{};
-  else if constexpr (N == 1) return fcppt::tuple::object<pe>{pe{v[off]}};
-  else if constexpr (N == 2) return fcppt::tuple::object<pe, pe>{pe{v[off]}, pe{v[off + 1]}};
-  else return fcppt::tuple::object<pe, pe, pe>{pe{v[off]}, pe{v[off + 1]}, pe{v[off + 2]}};
-}
-
-// pass x on as const lvalue (0), lvalue (1) or rvalue (2)
-template <typename T, typename G>
-std::string with_cat(ulong const cat, T &x, G const &g)
-{
-  switch (cat)
-  {
-  case 0: return g(std::as_const(x));
-  case 1: return g(x);
-  case 2: return g(std::move(x));
-  default: return bad;
-  }
-}
-// lvalue (1) or rvalue (2) only
-template <typename T, typename G>
-std::string with_cat2(ulong const cat, T &x, G const &g)
-{
-  switch (cat)
-  {
-  case 1: return g(x);
-  case 2: return g(std::move(x));
-  default: return bad;
-  }
-}
-#define FWD(x) std::forward<decltype(x)>(x)
-
-// tuple::concat with arguments of any value category; where the overload set rejects lvalue tuples (see notes/C16.md,
-// DEFECT CANDIDATE 2) an lvalue argument is replaced by an rvalue copy, which has the same observable effect
-template <typename T>
-decltype(auto) concat_arg(T &&t)
-{
-  using plain = std::remove_cvref_t<T>;
-  if constexpr (requires(plain &l) { fcppt::tuple::concat(l); }) return std::forward<T>(t);
-  else if constexpr (std::is_lvalue_reference_v<T>) return plain{t};
-  else return std::forward<T>(t);
-}
-
-// ---------------------------------------------------------------- sources
-
-// read-only range kinds: v l d f s m i e.  `f` is called with a const container.
-template <typename F>
-std::string with_ro(char const k, seq const &v, F const &f)
-{
-  switch (k)
-  {
-  case 'v': { std::vector<int> const c(v.begin(), v.end()); return f(c); }
-  case 'l': { std::list<int> const c(v.begin(), v.end()); return f(c); }
-  case 'd': { std::deque<int> const c(v.begin(), v.end()); return f(c); }
-  case 'f': { std::forward_list<int> const c(v.begin(), v.end()); return f(c); }
-  case 's': { std::set<int> const c(v.begin(), v.end()); return f(c); }
-  case 'm':
-  {
-    std::map<int, int> c;
-    for (std::size_t i = 0; i < v.size(); ++i)
-      c.emplace(static_cast<int>(i), v[i]);
-    std::map<int, int> const &cc{c};
-    return f(cc);
-  }
-  case 'i': { if (v.size() != 2 || v[0] > 3 || v[1] > 3) return bad; fcppt::int_range<int> const c{fcppt::make_int_range(v[0], v[1])}; return f(c); }
-  case 'e':
-  {
-    if (v.size() != 2 || v[0] > v[1] || v[1] > 3) return bad;
-    fcppt::enum_::range<en3> const c{static_cast<unsigned>(v[0]), static_cast<unsigned>(v[1])};
-    return f(c);
-  }
-  default: return bad;
-  }
-}
-
-template <typename F>
-std::string with_vldf(char const k, seq const &v, F const &f)
-{
-  switch (k)
-  {
-  case 'v': { std::vector<int> const c(v.begin(), v.end()); return f(c); }
-  case 'l': { std::list<int> const c(v.begin(), v.end()); return f(c); }
-  case 'd': { std::deque<int> const c(v.begin(), v.end()); return f(c); }
-  case 'f': { std::forward_list<int> const c(v.begin(), v.end()); return f(c); }
-  default: return bad;
-  }
-}
-
-// mutable sequence kinds: v l d (+ s when allowed)
-template <typename F>
-std::string with_seq(char const k, seq const &v, F const &f)
-{
-  switch (k)
-  {
-  case 'v': { std::vector<int> c(v.begin(), v.end()); return f(c); }
-  case 'l': { std::list<int> c(v.begin(), v.end()); return f(c); }
-  case 'd': { std::deque<int> c(v.begin(), v.end()); return f(c); }
-  default: return bad;
-  }
-}
-template <typename F>
-std::string with_seq_set(char const k, seq const &v, F const &f)
-{
-  if (k == 's') { std::set<int> c(v.begin(), v.end()); return f(c); }
-  return with_seq(k, v, f);
-}
-
-template <typename T> struct elem_of { static T from(int x) { return static_cast<T>(x); } };
-
-template <typename C>
-using elem_t = std::remove_cvref_t<decltype(*std::declval<C const &>().begin())>;
-
-// run with a target container type chosen by t: 0 vector, 1 list, 2 deque, 3 set
-template <typename F>
-std::string with_target(ulong const t, F const &f)
-{
-  switch (t)
-  {
-  case 0: return f(std::vector<int>{});
-  case 1: return f(std::list<int>{});
-  case 2: return f(std::deque<int>{});
-  case 3: return f(std::set<int>{});
-  default: return bad;
-  }
-}
-
-// containers of probe elements: v l d
-template <typename F>
-std::string with_pseq(char const k, seq const &v, F const &f)
-{
-  switch (k)
-  {
-  case 'v': { std::vector<pe> c(v.begin(), v.end()); return f(c); }
-  case 'l': { std::list<pe> c(v.begin(), v.end()); return f(c); }
-  case 'd': { std::deque<pe> c(v.begin(), v.end()); return f(c); }
-  default: return bad;
-  }
-}
-
-std::string const skip{"skip"};
-
-template <typename C, typename It>
-std::string opt_idx(C &c, fcppt::optional::object<It> const &o)
-{
-  if (!o.has_value())
-    return "none";
-  auto const pos = std::distance(c.begin(), It{o.get_unsafe()});
-  if (pos < 0 || pos >= std::distance(c.begin(), c.end()))
-    return std::to_string(pos) + ":oob";
-  return std::to_string(pos) + ":" + std::to_string(val(*o.get_unsafe()));
-}
-
-constexpr bool is_ro(char k) { return k == 'v' || k == 'l' || k == 'd' || k == 'f' || k == 's' || k == 'm' || k == 'i' || k == 'e'; }
-constexpr bool is_sq(char k) { return k == 'v' || k == 'l' || k == 'd'; }
-
-// ---------------------------------------------------------------- one evaluation
-
 std::string eval_fn(std::string const &fn, char const k, std::vector<ulong> const &ps, seq const &v)
 {
-  namespace alg = fcppt::algorithm;
-  namespace con = fcppt::container;
-  bool const ro = is_ro(k);
-  bool const sq = is_sq(k);
-  std::size_t const np = ps.size();
   if (k == 'a' && (v.size() > 6 || !all_lt3(v))) return bad;
   if (k == 't' && (v.size() > 3 || !all_lt3(v))) return bad;
   if (k == 'p' && (v.size() > 3 || !all_lt3(v))) return bad;
   if ((k == 'v' || k == 'l' || k == 'd' || k == 'f' || k == 'm' || k == 's') && !all_lt3(v)) return bad;
 
-  if (fn == "map" && np == 2)
-  {
-    ulong const t = ps[0], F = ps[1];
-    if (!(ro || k == 'a' || k == 'p') || t > 4 || F >= 27 || ((k == 'a' || k == 'p') && t != 0 && t != 4)) return bad;
-    auto const show = [](auto const &r, seq const &log) {
-      if constexpr (std::is_same_v<std::remove_cvref_t<decltype(r)>, rc>) return ds(r) + "|" + ds(log) + "|" + r.cap();
-      else return ds(r) + "|" + ds(log);
-    };
-    auto const with_t = [&](auto const &f) {
-      if (t == 4) return f(rc{});
-      return with_target(t, f);
-    };
-    if (k == 'a')
-      return with_size<6>(v.size(), [&](auto n) {
-        auto const src{mk_array<SZ(n)>(v, 0)};
-        auto const go = [&](auto target) {
-          seq log;
-          auto const r{alg::map<decltype(target)>(src, [&](int const e) { log.push_back(e); return tbl_f(F, e); })};
-          return show(r, log);
-        };
-        return t == 4 ? go(rc{}) : go(std::vector<int>{});
-      });
-    if (k == 'p')
-      return with_mpl(v, [&](auto list) {
-        auto const go = [&](auto target) {
-          seq log;
-          auto const r{alg::map<decltype(target)>(list, [&](auto const tag) { log.push_back(val(tag)); return tbl_f(F, val(tag)); })};
-          return show(r, log);
-        };
-        return t == 4 ? go(rc{}) : go(std::vector<int>{});
-      });
-    return with_ro(k, v, [&](auto const &c) {
-      return with_t([&](auto target) {
-        using target_type = decltype(target);
-        seq log;
-        auto const r{alg::map<target_type>(c, [&](auto const &e) { log.push_back(val(e)); return tbl_f(F, val(e)); })};
-        return show(r, log);
-      });
-    });
-  }
-  if (fn == "mapopt" && np == 2)
-  {
-    ulong const t = ps[0], G = ps[1];
-    if (!ro || t > 3 || G >= 64) return bad;
-    return with_ro(k, v, [&](auto const &c) {
-      return with_target(t, [&](auto target) {
-        using target_type = decltype(target);
-        seq log;
-        auto const r{alg::map_optional<target_type>(c, [&](auto const &e) { log.push_back(val(e)); return tbl_g(G, val(e)); })};
-        return ds(r) + "|" + ds(log);
-      });
-    });
-  }
-  if (fn == "mapcat" && np == 2)
-  {
-    ulong const t = ps[0], H = ps[1];
-    if (!ro || t > 3 || H >= 64) return bad;
-    return with_ro(k, v, [&](auto const &c) {
-      return with_target(t, [&](auto target) {
-        using target_type = decltype(target);
-        seq log;
-        auto const r{alg::map_concat<target_type>(c, [&](auto const &e) {
-          log.push_back(val(e));
-          seq const h{tbl_h(H, val(e))};
-          return target_type(h.begin(), h.end());
-        })};
-        return ds(r) + "|" + ds(log);
-      });
-    });
-  }
-  if (fn == "fold" && np == 0)
-  {
-    if (!(ro || k == 'a')) return bad;
-    auto const step = [](auto const &e, ulong const st) { return st * 4 + static_cast<ulong>(val(e)) + 1; };
-    if (k == 'a')
-      return with_size<6>(v.size(), [&](auto n) {
-        auto const src{mk_array<SZ(n)>(v, 0)};
-        return std::to_string(alg::fold(src, 0UL, step));
-      });
-    return with_ro(k, v, [&](auto const &c) { return std::to_string(alg::fold(c, 0UL, step)); });
-  }
-  if (fn == "foldbrk" && np == 1)
-  {
-    ulong const B = ps[0];
-    if (!ro || B >= 8) return bad;
-    return with_ro(k, v, [&](auto const &c) {
-      return std::to_string(alg::fold_break(c, 0UL, [B](auto const &e, ulong const st) {
-        return std::make_pair(bit(B, val(e)) ? fcppt::loop::break_ : fcppt::loop::continue_, st * 4 + static_cast<ulong>(val(e)) + 1);
-      }));
-    });
-  }
-  if (fn == "loopbrk" && np == 1)
-  {
-    ulong const B = ps[0];
-    if (!(ro || k == 'a' || k == 't' || k == 'p') || B >= 8) return bad;
-    seq log;
-    auto const body = [&log, B](auto const &e) {
-      log.push_back(val(e));
-      return bit(B, val(e)) ? fcppt::loop::break_ : fcppt::loop::continue_;
-    };
-    if (k == 'a')
-      return with_size<6>(v.size(), [&](auto n) { alg::loop_break(mk_array<SZ(n)>(v, 0), body); return ds(log); });
-    if (k == 't')
-      return with_size<3>(v.size(), [&](auto n) { alg::loop_break(mk_tuple<SZ(n)>(v, 0), body); return ds(log); });
-    if (k == 'p')
-      return with_mpl(v, [&](auto list) { alg::loop_break(list, body); return ds(log); });
-    return with_ro(k, v, [&](auto const &c) { alg::loop_break(c, body); return ds(log); });
-  }
-  if (fn == "loop" && np == 0)
-  {
-    if (!ro) return bad;
-    return with_ro(k, v, [&](auto const &c) {
-      seq log;
-      alg::loop(c, [&log](auto const &e) { log.push_back(val(e)); });
-      return ds(log);
-    });
-  }
-  if ((fn == "allof" || fn == "containsif") && np == 1)
-  {
-    ulong const P = ps[0];
-    if (!ro || P >= 8) return bad;
-    return with_ro(k, v, [&](auto const &c) {
-      seq log;
-      auto const pred = [&log, P](auto const &e) { log.push_back(val(e)); return bit(P, val(e)); };
-      bool const r = fn == "allof" ? alg::all_of(c, pred) : alg::contains_if(c, pred);
-      return std::string{b01(r)} + "|" + ds(log);
-    });
-  }
-  if ((fn == "contains" || fn == "findopt") && np == 1)
-  {
-    ulong const V = ps[0];
-    if (!ro || k == 'm' || V >= 3) return bad;
-    return with_ro(k, v, [&](auto const &c) -> std::string {
-      using elem = elem_t<decltype(c)>;
-      if constexpr (std::is_same_v<elem, int> || std::is_same_v<elem, en3>)
-      {
-        elem const value{static_cast<elem>(V)};
-        if (fn == "contains")
-          return b01(alg::contains(c, value));
-        // const range, non-const range, and (iterators into a temporary would dangle, so) an rvalue of a view type only where it is one
-        std::string const a{opt_idx(c, alg::find_opt(c, value))};
-        auto nc{c};
-        std::string const b{opt_idx(nc, alg::find_opt(nc, value))};
-        return a == b ? a : a + "!=" + b;
-      }
-      else
-        return bad;
-    });
-  }
-  if (fn == "findifopt" && np == 1)
-  {
-    ulong const P = ps[0];
-    if (!ro || P >= 8) return bad;
-    return with_ro(k, v, [&](auto const &c) {
-      auto const pred = [P](auto const &e) { return bit(P, val(e)); };
-      std::string const a{opt_idx(c, alg::find_if_opt(c, pred))};
-      auto nc{c};
-      std::string const b{opt_idx(nc, alg::find_if_opt(nc, pred))};
-      return a == b ? a : a + "!=" + b;
-    });
-  }
-  if (fn == "findbyopt" && np == 1)
-  {
-    ulong const G = ps[0];
-    if (!ro || G >= 64) return bad;
-    return with_ro(k, v, [&](auto const &c) {
-      seq log;
-      fcppt::optional::object<int> const r{alg::find_by_opt(c, [&log, G](auto const &e) { log.push_back(val(e)); return tbl_g(G, val(e)); })};
-      return (r.has_value() ? std::to_string(r.get_unsafe()) : std::string{"none"}) + "|" + ds(log);
-    });
-  }
-  if (fn == "indexof" && np == 1)
-  {
-    ulong const V = ps[0];
-    if (!(k == 'v' || k == 'd' || k == 'a') || V >= 3) return bad;
-    auto const show = [](auto const &o) { return o.has_value() ? std::to_string(o.get_unsafe()) : std::string{"none"}; };
-    if (k == 'a')
-      return with_size<6>(v.size(), [&](auto n) { return show(alg::index_of(mk_array<SZ(n)>(v, 0), static_cast<int>(V))); });
-    return with_seq(k, v, [&](auto &c) -> std::string {
-      if constexpr (std::is_same_v<std::remove_cvref_t<decltype(c)>, std::list<int>>) return bad;
-      else return show(alg::index_of(c, static_cast<int>(V)));
-    });
-  }
-  if ((fn == "eqrange" || fn == "bsearch") && np == 1)
-  {
-    ulong const V = ps[0];
-    if (!(sq || k == 's') || V >= 3) return bad;
-    return with_seq_set(k, v, [&](auto &c) {
-      int const value{static_cast<int>(V)};
-      if (fn == "eqrange")
-      {
-        auto const r{alg::equal_range(c, value)};
-        auto const &cc{c};
-        auto const r2{alg::equal_range(cc, value)};
-        std::string const a{std::to_string(std::distance(c.begin(), r.begin())) + "," + std::to_string(std::distance(c.begin(), r.end()))};
-        std::string const b{std::to_string(std::distance(cc.begin(), r2.begin())) + "," + std::to_string(std::distance(cc.begin(), r2.end()))};
-        return a == b ? a : a + "!=" + b;
-      }
-      // both the const and the non-const overload
-      auto const &cc{c};
-      std::string const a{opt_idx(c, alg::binary_search(c, value))};
-      std::string const b{opt_idx(cc, alg::binary_search(cc, value))};
-      return a == b ? a : a + "!=" + b;
-    });
-  }
-  if ((fn == "removeif" || fn == "remove") && np == 1)
-  {
-    ulong const P = ps[0];
-    if (!sq || (fn == "remove" ? P >= 3 : P >= 8)) return bad;
-    return with_seq(k, v, [&](auto &c) {
-      bool const r = fn == "remove" ? alg::remove(c, static_cast<int>(P)) : alg::remove_if(c, [P](int const e) { return bit(P, e); });
-      return std::string{b01(r)} + "|" + ds(c);
-    });
-  }
-  if (fn == "unique" && np == 0)
-  {
-    if (!sq) return bad;
-    return with_seq(k, v, [&](auto &c) { alg::unique(c); return ds(c); });
-  }
-  if (fn == "uniqueif" && np == 1)
-  {
-    ulong const R = ps[0];
-    if (!sq || R >= 512) return bad;
-    return with_seq(k, v, [&](auto &c) { alg::unique_if(c, [R](int const a, int const b) { return rel(R, a, b); }); return ds(c); });
-  }
-  if (fn == "reverse" && np == 0)
-  {
-    if (!sq) return bad;
-    return with_seq(k, v, [&](auto &c) {
-      auto const &cc{c};
-      auto const before{c};
-      std::string const a{ds(alg::reverse(cc))};                // lvalue: copy
-      if (c != before) return std::string{"source-modified"};
-      std::string const b{ds(alg::reverse(std::move(c)))};      // rvalue: in place
-      return a == b ? a : a + "!=" + b;
-    });
-  }
-  if (fn == "seqiter" && np == 1)
-  {
-    ulong const R = ps[0];
-    if (!sq || R >= 8) return bad;
-    return with_seq(k, v, [&](auto &c) {
-      seq log;
-      alg::sequence_iteration(c, [&log, R](int const e) {
-        log.push_back(e);
-        return bit(R, e) ? alg::update_action::remove : alg::update_action::keep;
-      });
-      return ds(c) + "|" + ds(log);
-    });
-  }
-  if (fn == "atopt" && np == 1)
-  {
-    if (!(k == 'v' || k == 'd' || k == 'a') || ps[0] > 1005) return bad;
-    // below 1000 as they are; 1000.. = indices that differ from small ones only in the high bits
-    static constexpr ulong big[] = {1UL << 31U, 1UL << 32U, (1UL << 32U) + 1UL, 1UL << 63U, ~0UL, (1UL << 33U) + 2UL};
-    ulong const I = ps[0] < 1000 ? ps[0] : big[ps[0] - 1000];
-    auto const show = [I](auto &c, auto const &o) {
-      if (!o.has_value()) return std::string{"none"};
-      // the reference must be the element inside the container
-      return std::to_string(o.get_unsafe().get()) + (&o.get_unsafe().get() == &*(c.begin() + static_cast<std::ptrdiff_t>(I)) ? "" : "!ref");
-    };
-    if (k == 'a')
-      return with_size<6>(v.size(), [&](auto n) { auto a{mk_array<SZ(n)>(v, 0)}; return show(a, con::at_optional(a, I)); });
-    return with_seq(k, v, [&](auto &c) -> std::string {
-      if constexpr (std::is_same_v<std::remove_cvref_t<decltype(c)>, std::list<int>>) return bad;
-      else
-      {
-        auto const &cc{c};
-        std::string const a{show(c, con::at_optional(c, I))}, b{show(cc, con::at_optional(cc, I))};
-        return a == b ? a : a + "!=" + b;
-      }
-    });
-  }
-  if (fn == "join" && np == 3)
-  {
-    ulong const K = ps[0], c1 = ps[1], c2 = ps[2];
-    if (!(sq || k == 's') || K < 1 || K > 5 || c1 > c2 || c2 > v.size()) return bad;
-    return with_seq_set(k, v, [&](auto &proto) {
-      using C = std::remove_cvref_t<decltype(proto)>;
-      auto const b0 = v.begin();
-      using diff = seq::difference_type;
-      C const whole(v.begin(), v.end());
-      C const a(b0, b0 + static_cast<diff>(c1)), b(b0 + static_cast<diff>(c1), b0 + static_cast<diff>(c2)), c(b0 + static_cast<diff>(c2), v.end());
-      C const bc(b0 + static_cast<diff>(c1), v.end());
-      std::string l, r;
-      if (K == 4 || K == 5)
-      {
-        // the same object as several arguments (non-const lvalue)
-        C w(v.begin(), v.end());
-        std::string const j{K == 4 ? ds(con::join(w, w)) : ds(con::join(w, w, w))};
-        return w == whole ? j : j + "!source-modified";
-      }
-      if (K == 1) { l = ds(con::join(whole)); r = ds(con::join(C{whole})); }
-      else if (K == 2) { l = ds(con::join(a, bc)); r = ds(con::join(C{a}, C{bc})); }
-      else { l = ds(con::join(a, b, c)); r = ds(con::join(C{a}, b, C{c})); }
-      return l == r ? l : l + "!=" + r;
-    });
-  }
-  if (fn == "amap" && np == 1)
-  {
-    ulong const F = ps[0];
-    if (k != 'a' || F >= 27) return bad;
-    return with_size<6>(v.size(), [&](auto n) {
-      auto const src{mk_array<SZ(n)>(v, 0)};
-      std::string const a{ds(fcppt::array::map(src, [F](int const e) { return tbl_f(F, e); }))};
-      // the same through algorithm::map (map_array.hpp)
-      std::string const b{ds(alg::map<fcppt::array::object<int, SZ(n)>>(src, [F](int const e) { return tbl_f(F, e); }))};
-      return a == b ? a : a + "!=" + b;
-    });
-  }
-  if (fn == "aappend" && np == 1)
-  {
-    ulong const c1 = ps[0];
-    if (k != 'a' || c1 > v.size() || c1 > 3 || v.size() - c1 > 3) return bad;
-    return with_size<3>(c1, [&](auto n1) {
-      return with_size<3>(v.size() - c1, [&](auto n2) {
-        return ds(fcppt::array::append(mk_array<SZ(n1)>(v, 0), mk_array<SZ(n2)>(v, c1)));
-      });
-    });
-  }
-  if (fn == "ajoin" && np == 2)
-  {
-    ulong const c1 = ps[0], c2 = ps[1];
-    if (k != 'a' || c1 > c2 || c2 > v.size() || c1 > 2 || c2 - c1 > 2 || v.size() - c2 > 2) return bad;
-    return with_size<2>(c1, [&](auto n1) {
-      return with_size<2>(c2 - c1, [&](auto n2) {
-        return with_size<2>(v.size() - c2, [&](auto n3) {
-          return ds(fcppt::array::join(mk_array<SZ(n1)>(v, 0), mk_array<SZ(n2)>(v, c1), mk_array<SZ(n3)>(v, c2)));
-        });
-      });
-    });
-  }
-  if (fn == "apush" && np == 1)
-  {
-    ulong const V = ps[0];
-    if (k != 'a' || v.size() > 5 || V >= 3) return bad;
-    return with_size<5>(v.size(), [&](auto n) { return ds(fcppt::array::push_back(mk_array<SZ(n)>(v, 0), static_cast<int>(V))); });
-  }
-  if (fn == "afrom" && np == 1)
-  {
-    ulong const N = ps[0];
-    if (!(k == 'v' || k == 'd') || N > 4) return bad;
-    return with_size<4>(N, [&](auto n) {
-      auto const show = [](auto const &o) { return o.has_value() ? ds(o.get_unsafe()) : std::string{"none"}; };
-      if (k == 'v') { std::vector<int> const c(v.begin(), v.end()); return show(fcppt::array::from_range<SZ(n)>(c)); }
-      std::deque<int> const c(v.begin(), v.end());
-      return show(fcppt::array::from_range<SZ(n)>(c));
-    });
-  }
-  if (fn == "tmap" && np == 1)
-  {
-    ulong const F = ps[0];
-    if (k != 't' || F >= 27) return bad;
-    return with_size<3>(v.size(), [&](auto n) {
-      auto const src{mk_tuple<SZ(n)>(v, 0)};
-      auto const f = [F](auto const e) { return static_cast<long>(tbl_f(F, val(e))); };
-      std::string const a{ds_tuple(fcppt::tuple::map(src, f))};
-      // the same through algorithm::map (map_tuple.hpp)
-      std::string const b{ds_tuple(alg::map<decltype(fcppt::tuple::map(src, f))>(src, f))};
-      return a == b ? a : a + "!=" + b;
-    });
-  }
-  if (fn == "tpush" && np == 1)
-  {
-    ulong const V = ps[0];
-    if (k != 't' || v.size() > 2 || V >= 3) return bad;
-    return with_size<2>(v.size(), [&](auto n) { return ds_tuple(fcppt::tuple::push_back(mk_tuple<SZ(n)>(v, 0), static_cast<short>(V))); });
-  }
-  if (fn == "tconcat" && np == 2)
-  {
-    ulong const c1 = ps[0], c2 = ps[1];
-    if (k != 't' || c1 > c2 || c2 > v.size()) return bad;
-    return with_size<3>(c1, [&](auto n1) {
-      return with_size<3>(c2 - c1, [&](auto n2) {
-        return with_size<3>(v.size() - c2, [&](auto n3) -> std::string {
-          if constexpr (SZ(n1) + SZ(n2) + SZ(n3) > 3) return bad;
-          else
-            return ds_tuple(fcppt::tuple::concat(mk_tuple<SZ(n1)>(v, 0), mk_tuple<SZ(n2)>(v, c1), mk_tuple<SZ(n3)>(v, c2)));
-        });
-      });
-    });
-  }
-  // ------------------------------------------------------------ aliasing, references
-  if (fn == "removeat" && np == 1)
-  {
-    ulong const I = ps[0];
-    if (!sq || I > 8) return bad;
-    if (I >= v.size()) return skip;
-    return with_seq(k, v, [&](auto &c) {
-      // the element to remove is a reference into the container itself
-      bool const r = alg::remove(c, *std::next(c.begin(), static_cast<std::ptrdiff_t>(I)));
-      return std::string{b01(r)} + "|" + ds(c);
-    });
-  }
-  if (fn == "loopmut" && np == 1)
-  {
-    ulong const B = ps[0];
-    if (!(sq || k == 'a') || B > 8) return bad;
-    auto const run = [B](auto &c) {
-      if (B == 8)
-        alg::loop(c, [](auto &&e) { e = (e + 1) % 3; });
-      else
-        alg::loop_break(c, [B](auto &&e) {
-          bool const brk = bit(B, e);
-          e = (e + 1) % 3;
-          return brk ? fcppt::loop::break_ : fcppt::loop::continue_;
-        });
-      return ds(c);
-    };
-    if (k == 'a')
-      return with_size<6>(v.size(), [&](auto n) { auto a{mk_array<SZ(n)>(v, 0)}; return run(a); });
-    return with_seq(k, v, run);
-  }
-  if (fn == "singular" && np == 2)
-  {
-    ulong const i = ps[0], j = ps[1];
-    if (!(sq || k == 's')) return bad;
-    if (i > j || j > v.size()) return skip;
-    return with_seq_set(k, v, [&](auto &c) {
-      if (i > c.size() || j > c.size()) return skip; // the set may be shorter than the sequence
-      auto const b{std::next(c.begin(), static_cast<std::ptrdiff_t>(i))};
-      auto const e{std::next(c.begin(), static_cast<std::ptrdiff_t>(j))};
-      return std::string{b01(fcppt::range::singular(fcppt::iterator::make_range(b, e)))};
-    });
-  }
-  if (fn == "singularc" && np == 0)
-  {
-    if (!(sq || k == 's' || k == 'f')) return bad;
-    return with_ro(k, v, [&](auto const &c) { return std::string{b01(fcppt::range::singular(c))}; });
-  }
-  // ------------------------------------------------------------ arities
-  if (fn == "ajoin1" && np == 0)
-  {
-    if (k != 'a') return bad;
-    return with_size<6>(v.size(), [&](auto n) {
-      auto const a{mk_array<SZ(n)>(v, 0)};
-      std::string const l{ds(fcppt::array::join(a))}, r{ds(fcppt::array::join(mk_array<SZ(n)>(v, 0)))};
-      return l == r ? l : l + "!=" + r;
-    });
-  }
-  if (fn == "ajoin2" && np == 1)
-  {
-    ulong const c1 = ps[0];
-    if (k != 'a') return bad;
-    if (c1 > v.size() || c1 > 3 || v.size() - c1 > 3) return skip;
-    return with_size<3>(c1, [&](auto n1) {
-      return with_size<3>(v.size() - c1, [&](auto n2) {
-        auto const a{mk_array<SZ(n1)>(v, 0)};
-        auto const b{mk_array<SZ(n2)>(v, c1)};
-        std::string const l{ds(fcppt::array::join(a, b))}, r{ds(fcppt::array::join(mk_array<SZ(n1)>(v, 0), mk_array<SZ(n2)>(v, c1)))};
-        return l == r ? l : l + "!=" + r;
-      });
-    });
-  }
-  if (fn == "ajoin4" && np == 1)
-  {
-    ulong const mask = ps[0];
-    if (k != 'a' || mask > 15) return bad;
-    if (static_cast<std::size_t>(__builtin_popcountl(mask)) != v.size()) return skip;
-    std::size_t const s1 = mask & 1U, s2 = (mask >> 1U) & 1U, s3 = (mask >> 2U) & 1U, s4 = (mask >> 3U) & 1U;
-    return with_size<1>(s1, [&](auto n1) {
-      return with_size<1>(s2, [&](auto n2) {
-        return with_size<1>(s3, [&](auto n3) {
-          return with_size<1>(s4, [&](auto n4) {
-            auto const b{mk_array<SZ(n2)>(v, s1)};
-            return ds(fcppt::array::join(mk_array<SZ(n1)>(v, 0), b, mk_array<SZ(n3)>(v, s1 + s2), mk_array<SZ(n4)>(v, s1 + s2 + s3)));
-          });
-        });
-      });
-    });
-  }
-  if (fn == "tconcatn" && np == 2)
-  {
-    // tuple::concat with 0, 1 or 2 arguments
-    ulong const K = ps[0], c1 = ps[1];
-    if (k != 't' || K > 2) return bad;
-    if (c1 > v.size() || (K == 0 && !v.empty()) || (K <= 1 && c1 != 0)) return skip;
-    if (K == 0) return ds_tuple(fcppt::tuple::concat());
-    if (K == 1)
-      return with_size<3>(v.size(), [&](auto n) {
-        auto const a{mk_tuple<SZ(n)>(v, 0)};
-        std::string const l{ds_tuple(fcppt::tuple::concat(concat_arg(a)))}, r{ds_tuple(fcppt::tuple::concat(mk_tuple<SZ(n)>(v, 0)))};
-        return l == r ? l : l + "!=" + r;
-      });
-    return with_size<3>(c1, [&](auto n1) {
-      return with_size<3>(v.size() - c1, [&](auto n2) -> std::string {
-        if constexpr (SZ(n1) + SZ(n2) > 3) return bad;
-        else
-        {
-          auto const a{mk_tuple<SZ(n1)>(v, 0)};
-          return ds_tuple(fcppt::tuple::concat(concat_arg(a), mk_tuple<SZ(n2)>(v, c1)));
-        }
-      });
-    });
-  }
-  // ------------------------------------------------------------ value categories (probe elements; 9 = moved-from)
-  if ((fn == "vcmap" || fn == "vcfold" || fn == "vcmapopt" || fn == "vcmapcat") && np == 1)
-  {
-    ulong const cat = ps[0];
-    if (cat > 2) return bad;
-    if (k == 'a' && fn == "vcmap")
-    {
-      if (v.size() > 3) return skip;
-      return with_size<3>(v.size(), [&](auto n) {
-        auto a{mk_parray<SZ(n)>(v, 0)};
-        return with_cat(cat, a, [&](auto &&src) {
-          auto const r{fcppt::array::map(FWD(src), [](pe e) { return e; })};
-          return ds(r) + "|" + ds(a);
-        });
-      });
-    }
-    if (k == 't' && fn == "vcmap")
-    {
-      if (v.size() > 3) return skip;
-      return with_size<3>(v.size(), [&](auto n) {
-        auto t{mk_ptuple<SZ(n)>(v, 0)};
-        return with_cat(cat, t, [&](auto &&src) {
-          auto const r{fcppt::tuple::map(FWD(src), [](pe e) { return e; })};
-          return ds_tuple(r) + "|" + ds_tuple(t);
-        });
-      });
-    }
-    if (!sq) return bad;
-    return with_pseq(k, v, [&](auto &c) {
-      return with_cat(cat, c, [&](auto &&src) {
-        std::string r;
-        if (fn == "vcmap")
-          r = ds(alg::map<std::vector<pe>>(FWD(src), [](pe e) { return e; }));
-        else if (fn == "vcfold")
-          r = std::to_string(alg::fold(FWD(src), 0UL, [](pe e, ulong const st) { return st * 4 + static_cast<ulong>(e.v) + 1; }));
-        else if (fn == "vcmapopt")
-          r = ds(alg::map_optional<std::vector<pe>>(FWD(src), [](pe e) { return fcppt::optional::object<pe>{std::move(e)}; }));
-        else
-          r = ds(alg::map_concat<std::vector<pe>>(FWD(src), [](pe e) { return std::vector<pe>{e, e}; }));
-        return r + "|" + ds(c);
-      });
-    });
-  }
-  if (fn == "vcjoin" && np == 5)
-  {
-    ulong const cat1 = ps[0], cat2 = ps[1], cat3 = ps[2], c1 = ps[3], c2 = ps[4];
-    if (!sq || cat1 > 2 || cat2 < 1 || cat2 > 2 || cat3 < 1 || cat3 > 2) return bad;
-    if (c1 > c2 || c2 > v.size()) return skip;
-    return with_pseq(k, v, [&](auto &proto) {
-      using C = std::remove_cvref_t<decltype(proto)>;
-      using diff = seq::difference_type;
-      auto const b0 = v.begin();
-      C a(b0, b0 + static_cast<diff>(c1)), b(b0 + static_cast<diff>(c1), b0 + static_cast<diff>(c2)), c(b0 + static_cast<diff>(c2), v.end());
-      return with_cat(cat1, a, [&](auto &&x) {
-        return with_cat2(cat2, b, [&](auto &&y) {
-          return with_cat2(cat3, c, [&](auto &&z) {
-            auto const r{con::join(FWD(x), FWD(y), FWD(z))};
-            // an rvalue first argument is taken over as a whole: its state afterwards is not specified
-            return ds(r) + "|" + (cat1 == 2 ? std::string{"*"} : ds(a)) + "|" + ds(b) + "|" + ds(c);
-          });
-        });
-      });
-    });
-  }
-  if (fn == "vcappend" && np == 3)
-  {
-    ulong const cat1 = ps[0], cat2 = ps[1], c1 = ps[2];
-    if (k != 'a' || cat1 > 2 || cat2 > 2) return bad;
-    if (c1 > v.size() || c1 > 2 || v.size() - c1 > 2) return skip;
-    return with_size<2>(c1, [&](auto n1) {
-      return with_size<2>(v.size() - c1, [&](auto n2) {
-        auto a{mk_parray<SZ(n1)>(v, 0)};
-        auto b{mk_parray<SZ(n2)>(v, c1)};
-        return with_cat(cat1, a, [&](auto &&x) {
-          return with_cat(cat2, b, [&](auto &&y) {
-            auto const r{fcppt::array::append(FWD(x), FWD(y))};
-            return ds(r) + "|" + ds(a) + "|" + ds(b);
-          });
-        });
-      });
-    });
-  }
-  if (fn == "vcpush" && np == 3)
-  {
-    ulong const cat = ps[0], catx = ps[1], V = ps[2];
-    if (k != 'a' || cat > 2 || catx > 2 || V >= 3) return bad;
-    if (v.size() > 3) return skip;
-    return with_size<3>(v.size(), [&](auto n) {
-      auto a{mk_parray<SZ(n)>(v, 0)};
-      pe x{static_cast<int>(V)};
-      return with_cat(cat, a, [&](auto &&src) {
-        return with_cat(catx, x, [&](auto &&e) {
-          auto const r{fcppt::array::push_back(FWD(src), FWD(e))};
-          return ds(r) + "|" + ds(a) + "|" + std::to_string(x.v);
-        });
-      });
-    });
-  }
-  if (fn == "vcajoin" && np == 5)
-  {
-    ulong const cat1 = ps[0], cat2 = ps[1], cat3 = ps[2], c1 = ps[3], c2 = ps[4];
-    if (k != 'a' || cat1 > 2 || cat2 < 1 || cat2 > 2 || cat3 < 1 || cat3 > 2) return bad;
-    if (c1 > c2 || c2 > v.size() || c1 > 1 || c2 - c1 > 1 || v.size() - c2 > 1) return skip;
-    return with_size<1>(c1, [&](auto n1) {
-      return with_size<1>(c2 - c1, [&](auto n2) {
-        return with_size<1>(v.size() - c2, [&](auto n3) {
-          auto a{mk_parray<SZ(n1)>(v, 0)};
-          auto b{mk_parray<SZ(n2)>(v, c1)};
-          auto c{mk_parray<SZ(n3)>(v, c2)};
-          return with_cat(cat1, a, [&](auto &&x) {
-            return with_cat2(cat2, b, [&](auto &&y) {
-              return with_cat2(cat3, c, [&](auto &&z) {
-                auto const r{fcppt::array::join(FWD(x), FWD(y), FWD(z))};
-                return ds(r) + "|" + ds(a) + "|" + ds(b) + "|" + ds(c);
-              });
-            });
-          });
-        });
-      });
-    });
-  }
-  if (fn == "vcfrom" && np == 2)
-  {
-    ulong const cat = ps[0], N = ps[1];
-    if (!(k == 'v' || k == 'd') || cat > 2 || N > 3) return bad;
-    return with_size<3>(N, [&](auto n) {
-      return with_pseq(k, v, [&](auto &c) -> std::string {
-        if constexpr (std::is_same_v<std::remove_cvref_t<decltype(c)>, std::list<pe>>) return bad;
-        else
-          return with_cat(cat, c, [&](auto &&src) {
-            auto const o{fcppt::array::from_range<SZ(n)>(FWD(src))};
-            return (o.has_value() ? ds(o.get_unsafe()) : std::string{"none"}) + "|" + ds(c);
-          });
-      });
-    });
-  }
-  if (fn == "vctpush" && np == 3)
-  {
-    ulong const cat = ps[0], catx = ps[1], V = ps[2];
-    if (k != 't' || cat > 2 || catx > 2 || V >= 3) return bad;
-    if (v.size() > 2) return skip;
-    return with_size<2>(v.size(), [&](auto n) {
-      auto t{mk_ptuple<SZ(n)>(v, 0)};
-      pe x{static_cast<int>(V)};
-      return with_cat(cat, t, [&](auto &&src) {
-        return with_cat(catx, x, [&](auto &&e) {
-          auto const r{fcppt::tuple::push_back(FWD(src), FWD(e))};
-          return ds_tuple(r) + "|" + ds_tuple(t) + "|" + std::to_string(x.v);
-        });
-      });
-    });
-  }
-  if (fn == "vctconcat" && np == 5)
-  {
-    ulong const cat1 = ps[0], cat2 = ps[1], cat3 = ps[2], c1 = ps[3], c2 = ps[4];
-    if (k != 't' || cat1 < 1 || cat1 > 2 || cat2 < 1 || cat2 > 2 || cat3 < 1 || cat3 > 2) return bad;
-    if (c1 > c2 || c2 > v.size() || c1 > 1 || c2 - c1 > 1 || v.size() - c2 > 1) return skip;
-    return with_size<1>(c1, [&](auto n1) {
-      return with_size<1>(c2 - c1, [&](auto n2) {
-        return with_size<1>(v.size() - c2, [&](auto n3) {
-          auto a{mk_ptuple<SZ(n1)>(v, 0)};
-          auto b{mk_ptuple<SZ(n2)>(v, c1)};
-          auto c{mk_ptuple<SZ(n3)>(v, c2)};
-          return with_cat2(cat1, a, [&](auto &&x) {
-            return with_cat2(cat2, b, [&](auto &&y) {
-              return with_cat2(cat3, c, [&](auto &&z) {
-                auto const r{fcppt::tuple::concat(concat_arg(FWD(x)), concat_arg(FWD(y)), concat_arg(FWD(z)))};
-                return ds_tuple(r) + "|" + ds_tuple(a) + "|" + ds_tuple(b) + "|" + ds_tuple(c);
-              });
-            });
-          });
-        });
-      });
-    });
-  }
-  if (fn == "make" && np == 1)
-  {
-    ulong const t = ps[0];
-    if (k != 'v' || t > 3) return bad;
-    if (v.size() > 4) return skip;
-    return with_size<4>(v.size(), [&](auto n) {
-      std::vector<pe> args(v.begin(), v.end());
-      auto const go = [&]<typename T>(fcppt::tag<T>) {
-        return [&]<std::size_t... I>(std::index_sequence<I...>) {
-          auto const r{con::make<T>(args[I]...)};
-          return ds(r) + "|" + ds(args);
-        }(std::make_index_sequence<SZ(n)>{});
-      };
-      switch (t)
-      {
-      case 0: return go(fcppt::tag<std::vector<pe>>{});
-      case 1: return go(fcppt::tag<std::list<pe>>{});
-      case 2: return go(fcppt::tag<std::deque<pe>>{});
-      default: return go(fcppt::tag<std::set<pe>>{});
-      }
-    });
-  }
-  if (fn == "mvrange" && np == 0)
-  {
-    if (!sq) return bad;
-    return with_pseq(k, v, [&](auto &c) {
-      auto range{con::make_move_range(std::move(c))};
-      auto const &crange{range};
-      std::string const before{ds(crange)};
-      std::vector<pe> read;
-      for (auto &&e : range) // move iterators: e is an rvalue
-        read.push_back(pe{FWD(e)});
-      return before + "|" + ds(read) + "|" + ds(crange);
-    });
-  }
-  if (fn == "mmiter" && np == 1)
-  {
-    // map_iteration over a std::multimap: key of the i-th entry = i / 2 (so keys repeat)
-    ulong const R = ps[0];
-    if (k != 'v' || R >= 8) return bad;
-    std::multimap<int, int> m;
-    for (std::size_t i = 0; i < v.size(); ++i) m.emplace(static_cast<int>(i / 2), v[i]);
-    seq log;
-    alg::map_iteration(m, [&log, R](std::pair<int const, int> const &e) {
-      log.push_back(e.second);
-      return bit(R, e.second) ? alg::update_action::remove : alg::update_action::keep;
-    });
-    std::string r;
-    for (auto const &e : m) r += (r.empty() ? "" : ",") + std::to_string(e.first) + ">" + std::to_string(e.second);
-    return (r.empty() ? "-" : r) + "|" + ds(log);
-  }
-  if (fn == "setiter" && np == 1)
-  {
-    ulong const R = ps[0];
-    if (k != 's' || R >= 8) return bad;
-    std::set<int> c(v.begin(), v.end());
-    seq log;
-    alg::map_iteration(c, [&log, R](int const e) {
-      log.push_back(e);
-      return bit(R, e) ? alg::update_action::remove : alg::update_action::keep;
-    });
-    return ds(c) + "|" + ds(log);
-  }
-  // ------------------------------------------------------------ equal, size, front/back, pop, data, output
-  if (fn == "equal" && np == 2)
-  {
-    ulong const k2 = ps[0], c1 = ps[1];
-    if (!(sq || k == 'f') || k2 > 3) return bad;
-    if (c1 > v.size()) return skip;
-    using diff = seq::difference_type;
-    seq const xs(v.begin(), v.begin() + static_cast<diff>(c1)), ys(v.begin() + static_cast<diff>(c1), v.end());
-    return with_vldf(k, xs, [&](auto const &a) {
-      return with_vldf("vldf"[k2], ys, [&](auto const &b) { return std::string{b01(alg::equal(a, b))}; });
-    });
-  }
-  if (fn == "equalself" && np == 0)
-  {
-    if (!(sq || k == 'f')) return bad;
-    return with_vldf(k, v, [&](auto const &a) { return std::string{b01(alg::equal(a, a))}; });
-  }
-  if (fn == "csize" && np == 0)
-  {
-    if (!ro) return bad;
-    return with_ro(k, v, [&](auto const &c) { return std::to_string(con::size(c)); });
-  }
-  if ((fn == "mfront" || fn == "mback") && np == 0)
-  {
-    bool const front = fn == "mfront";
-    if (!(sq || (front && k == 'f'))) return bad;
-    auto const go = [front](auto &c) -> std::string {
-      auto const &cc{c};
-      auto const show = [front](auto &x, auto const &o) {
-        if (!o.has_value()) return std::string{"none"};
-        bool same;
-        if constexpr (requires { x.back(); }) same = &o.get_unsafe().get() == (front ? &x.front() : &x.back());
-        else same = &o.get_unsafe().get() == &x.front();
-        return std::to_string(o.get_unsafe().get()) + (same ? "" : "!ref");
-      };
-      std::string a, b;
-      if constexpr (requires { c.back(); })
-      {
-        a = front ? show(c, con::maybe_front(c)) : show(c, con::maybe_back(c));
-        b = front ? show(cc, con::maybe_front(cc)) : show(cc, con::maybe_back(cc));
-      }
-      else
-      {
-        a = show(c, con::maybe_front(c));
-        b = show(cc, con::maybe_front(cc));
-      }
-      return a == b ? a : a + "!=" + b;
-    };
-    if (k == 'f') { std::forward_list<int> c(v.begin(), v.end()); return go(c); }
-    return with_seq(k, v, go);
-  }
-  if (fn == "popback" && np == 0)
-  {
-    if (!sq) return bad;
-    return with_seq(k, v, [&](auto &c) {
-      auto const o{con::pop_back(c)};
-      return (o.has_value() ? std::to_string(o.get_unsafe()) : std::string{"none"}) + "|" + ds(c);
-    });
-  }
-  if (fn == "popfront" && np == 0)
-  {
-    if (!(k == 'l' || k == 'd' || k == 'f')) return bad;
-    auto const go = [](auto &c) {
-      auto const o{con::pop_front(c)};
-      return (o.has_value() ? std::to_string(o.get_unsafe()) : std::string{"none"}) + "|" + ds(c);
-    };
-    if (k == 'l') { std::list<int> c(v.begin(), v.end()); return go(c); }
-    if (k == 'd') { std::deque<int> c(v.begin(), v.end()); return go(c); }
-    std::forward_list<int> c(v.begin(), v.end());
-    return go(c);
-  }
-  if (fn == "data" && np == 0)
-  {
-    if (!(k == 'v' || k == 'a')) return bad;
-    auto const go = [](auto &c) -> std::string {
-      auto const &cc{c};
-      auto const one = [](auto &x) -> std::string {
-        auto *const d{con::data(x)};
-        auto *const e{con::data_end(x)};
-        if (d == nullptr || e == nullptr)
-          return std::string{d == nullptr ? "null" : "ptr"} + "|" + (e == nullptr ? "null" : "ptr");
-        return std::string{d == &*x.begin() ? "0" : "elsewhere"} + "|" + std::to_string(e - d);
-      };
-      std::string const a{one(c)}, b{one(cc)};
-      return a == b ? a : a + "!=" + b;
-    };
-    if (k == 'a') // here: std::array (fcppt::array::object has no empty())
-      return with_size<6>(v.size(), [&](auto n) {
-        std::array<int, SZ(n)> a{};
-        for (std::size_t i = 0; i < SZ(n); ++i) a[i] = v[i];
-        return go(a);
-      });
-    std::vector<int> c(v.begin(), v.end());
-    return go(c);
-  }
-  if (fn == "output" && np == 0)
-  {
-    if (!(sq || k == 'f' || k == 's')) return bad;
-    // elements are printed as x*50-3 so that renderings have different lengths and a sign
-    seq w;
-    for (int const x : v) w.push_back(x * 50 - 3);
-    auto const go = [](auto const &c) {
-      std::ostringstream os;
-      os << con::output(c);
-      std::wostringstream wos;
-      wos << con::output(c);
-      std::string a{os.str()}, b;
-      for (wchar_t const ch : wos.str()) b += static_cast<char>(ch);
-      return a == b ? a : a + "!=" + b;
-    };
-    switch (k)
-    {
-    case 'v': { std::vector<int> const c(w.begin(), w.end()); return go(c); }
-    case 'l': { std::list<int> const c(w.begin(), w.end()); return go(c); }
-    case 'd': { std::deque<int> const c(w.begin(), w.end()); return go(c); }
-    case 'f': { std::forward_list<int> const c(w.begin(), w.end()); return go(c); }
-    default: { std::set<int> const c(w.begin(), w.end()); return go(c); }
-    }
-  }
+  for (auto const part : {&c16::eval_a, &c16::eval_b, &c16::eval_c, &c16::eval_d, &c16::eval_e, &c16::eval_f, &c16::eval_g})
+    if (auto r{part(fn, k, ps, v)}; r.has_value())
+      return *r;
   return bad;
 }
 
